@@ -499,6 +499,104 @@ def sync_value(ctx, repo, fi, du, e, at, sp, where):
     return n
 
 
+def _sample_domain_read_sync(ctx, repo, fi, du, sp):
+    """read_sync written without a concatenation: a preallocated int8 buffer, digital lines stored in its first columns, the analog lines obtained by comparing the RAW
+    integer samples with the detection level brought back to sample units:  raw >= (floor + threshold) / s2v  with floor = percentile(raw) * s2v (or 0), which is
+    raw * s2v - floor >= threshold for positive factors.  raw holds integers, so `raw >= L` for a real L is `raw >= ceil(L)`: a level cast to the integer sample type
+    must be rounded UP first (astype truncates towards zero and wraps beyond the type's range).  -> False when read_sync is not written this way."""
+    from sa.algebra import Evaluator, Poly, Undecided
+    cmps = [c for c in find(fi.node, ast.Call, nested=False) if call_name(c) == "greater_equal" and len(c.args) >= 2 and kwarg(c, "out") is not None]
+    if not cmps:
+        return False
+    buf = loc_name(kwarg(cmps[0], "out").value) if isinstance(kwarg(cmps[0], "out"), ast.Subscript) else None
+    alloc = [d for d in du.defs if d.var == buf and d.kind == "assign" and isinstance(d.value, ast.Call) and call_name(d.value) in ("empty", "zeros")]
+    if buf is None or len(alloc) != 1:
+        return False
+    av = alloc[0].value
+    shp = av.args[0].elts if av.args and isinstance(av.args[0], (ast.Tuple, ast.List)) and len(av.args[0].elts) == 2 else None
+    dt = kwarg(av, "dtype")
+    nd_txt = None
+    st_dig = [m.stmt for m in du.defs if m.var == buf and m.kind == "mutate" and isinstance(m.stmt, ast.Assign)]
+    okl = shp is not None and len(st_dig) == 1
+    if okl:
+        tg = st_dig[0].targets[0]
+        cs = tg.slice.elts[1] if isinstance(tg.slice, ast.Tuple) and len(tg.slice.elts) == 2 else None
+        okl = isinstance(cs, ast.Slice) and cs.lower is None and cs.upper is not None and _full(tg.slice.elts[0])
+        if okl:
+            nd_txt = src(expand_name(du, cs.upper, st_dig[0])).replace(" ", "")
+            dig_name = loc_name(st_dig[0].value)
+            okl = nd_txt == f"{dig_name}.shape[1]"
+    for c in cmps:
+        o = kwarg(c, "out")
+        oc = o.slice.elts[1] if isinstance(o.slice, ast.Tuple) and len(o.slice.elts) == 2 else None
+        okl = okl and isinstance(oc, ast.Slice) and oc.upper is None and oc.lower is not None and src(expand_name(du, oc.lower, c)).replace(" ", "") == nd_txt
+    raw_name = loc_name(cmps[0].args[0])
+    okl = okl and shp is not None and src(shp[1]).replace(" ", "") in (f"{nd_txt}+{raw_name}.shape[1]", f"{raw_name}.shape[1]+{nd_txt}") and src(shp[0]).replace(" ", "") in (f"{dig_name}.shape[0]", f"{raw_name}.shape[0]")
+    ctx.check(bool(okl) and dt is not None and src(dt).endswith("int8") and "uint" not in src(dt), fi, alloc[0].stmt, alloc[0].stmt, "digital lines first, thresholded analog lines after, in one signed int8 array",
+              f"`{src(alloc[0].stmt)[:90]}` and its two stores do not lay out (digital lines | analog lines) as a signed int8 array", key="concat", name_free=True)
+    okd, whyd = _digital_ok(repo, fi, du, st_dig[0].value, st_dig[0], sp) if st_dig else (False, "no digital store")
+    ctx.check(okd, fi, st_dig[0] if st_dig else fi.node, st_dig[0] if st_dig else "digital", f"read_sync: digital lines decode the sync word of the requested samples ({whyd})",
+              f"read_sync: the digital part is {whyd}", key="digital-part", name_free=True)
+    # raw / s2v of the analog sync channels of the requested samples, gathered with one selector
+    rdefs = [d for d in du.defs if d.var == raw_name and d.kind == "assign" and not (isinstance(d.value, ast.Constant) and d.value.value is None)]
+    g = _gather(du, rdefs[0].value, rdefs[0].stmt) if len(rdefs) == 1 else None
+    s2v_name = None
+    okr = g is not None and loc_name(g.rows) == sp and len(g.chain) == 1
+    sel = g.chain[0] if okr else None
+    inner = sel.slice if okr and isinstance(sel, ast.Subscript) and loc_name(sel.value) == "self.raw_channel_order" else sel
+    okr = okr and _analog_idx(repo, fi, du, inner, rdefs[0].stmt)
+    ctx.check(bool(okr), fi, rdefs[0].stmt if rdefs else fi.node, rdefs[0].stmt if rdefs else raw_name, "the compared samples are the analog sync channels of the requested samples (raw integers)",
+              f"`{src(rdefs[0].stmt)[:90] if rdefs else raw_name}` is not self._raw[<requested samples>, <analog sync channels>]", key="analog-part", name_free=True)
+    for c in cmps:
+        lev = c.args[1]
+        cast = None
+        core = lev
+        if isinstance(core, ast.Call) and call_name(core) == "astype" and isinstance(core.func, ast.Attribute):
+            cast, core = core, core.func.value
+
+        class E(Evaluator):
+            def ev(self, e):
+                if isinstance(e, ast.Call) and call_name(e) in ("percentile", "nanpercentile", "quantile") and e.args and loc_name(e.args[0]) == raw_name:
+                    return Poly.sym("FLOOR_RAW")
+                if isinstance(e, ast.Call) and call_name(e) in ("ceil",) and e.args:
+                    return self.ev(e.args[0])
+                if isinstance(e, ast.Call) and call_name(e) in ("clip", "minimum", "maximum") and e.args:
+                    return self.ev(e.args[0])
+                return super().ev(e)
+        s2 = [n.id for n in ast.walk(core) if isinstance(n, ast.Name) and n.id not in (raw_name, "np", sp, "threshold", "floor_percentile")]
+        s2v_name = s2[0] if s2 else None
+        try:
+            ev = E(resolve=lambda x: repo.resolve_expr(fi, x))
+            L = ev.ev(core)
+            S = Poly.sym(s2v_name) if s2v_name else None
+            okalg = S is not None and ((L * S - Poly.sym("FLOOR_RAW") * S) == Poly.sym("threshold") or (L * S) == Poly.sym("threshold"))
+        except Undecided:
+            okalg = False
+        sdefs = [d for d in du.defs if d.var == s2v_name and d.kind == "assign" and not (isinstance(d.value, ast.Constant) and d.value.value is None)] if s2v_name else []
+        oks = len(sdefs) == 1 and isinstance(sdefs[0].value, ast.Subscript) and src(sdefs[0].value.value).replace(" ", "") in ("self.sample2volts", "self.channel_conversion_sample2v[self.type]") \
+            and sel is not None and norm(sdefs[0].value.slice) == norm(sel)
+        ctx.check(okalg and oks, fi, c, c, "raw >= (floor + threshold) / s2v with the factors of the same channels: the trace in volts, floor removed, against the threshold",
+                  f"`{src(c)[:100]}` is not raw >= (percentile(raw) * s2v + threshold) / s2v with s2v the conversion factors of the compared channels", key="threshold", name_free=True)
+        if cast is not None:
+            rounded_up = any(isinstance(n, ast.Call) and call_name(n) == "ceil" for n in ast.walk(core))
+            clipped = any(isinstance(n, ast.Call) and call_name(n) in ("clip", "minimum") for n in ast.walk(core))
+            ctx.check(rounded_up and clipped, fi, cast, cast, "an integer detection level is the real level rounded up, kept inside the sample type's range",
+                      f"`{src(cast)[:90]}` casts the real-valued level to the integer sample type: astype truncates, so a sample up to one count BELOW the threshold compares as >= "
+                      "(rises one sample early, falls one sample late), and a level beyond the type's range wraps (threshold above the ADC range: every sample reads high); "
+                      "integers x satisfy x >= L exactly when x >= ceil(L)", key="level-cast", name_free=True)
+        else:
+            ctx.ok(fi, c, c, "the level stays real-valued: integer samples are compared with it exactly", key="level-cast")
+    for r in returns_of(fi.node):
+        if r.value is None:
+            continue
+        if loc_name(r.value) == buf:
+            ctx.ok(fi, r, r, "the assembled array is returned", key="ret-buf")
+        else:
+            okd2, whyd2 = _digital_ok(repo, fi, du, r.value, r, sp)
+            ctx.check(okd2, fi, r, r, f"digital-only result ({whyd2})", f"`{src(r)}` returns neither the assembled array nor the digital lines", key="digital-only", name_free=True)
+    return True
+
+
 def d3_read_sync(ctx):
     ctx.rule("D3", "read_sync = concatenate((digital, analog >= threshold), axis=1); digital = split_sync(raw[:, sync columns])")
     repo = ctx.repo
@@ -506,6 +604,10 @@ def d3_read_sync(ctx):
     du = DefUse(fi.node)
     cc = [c for c in find(fi.node, ast.Call, nested=False) if call_name(c) in ("concatenate", "hstack", "c_")]
     if not cc:
+        sp0 = [p_ for p_ in fi.params if p_ != "self"][0]
+        if _sample_domain_read_sync(ctx, repo, fi, du, sp0):
+            _read_and_digital_clauses(ctx, repo)
+            return
         raise AnchorMissing("read_sync: concatenation not found")
     c = cc[0]
     parts = c.args[0].elts if c.args and isinstance(c.args[0], (ast.Tuple, ast.List)) else []
@@ -520,16 +622,7 @@ def d3_read_sync(ctx):
             n_ += sync_value(ctx, repo, fi, du, r.value, r, sp, "read_sync")
     if n_ == 0:
         raise AnchorMissing("read_sync: no returned sync value evaluated")
-    # read(): the sync handed back next to the data is the sync of the same samples
-    fr = repo.fn("spikeglx.Reader.read")
-    dur = DefUse(fr.node)
-    spr = [p_ for p_ in fr.params if p_ != "self"][0]
-    nr = 0
-    for r in returns_of(fr.node):
-        if isinstance(r.value, ast.Tuple) and len(r.value.elts) == 2:
-            nr += sync_value(ctx, repo, fr, dur, r.value.elts[1], r, spr, "read(sync=True)")
-    if nr == 0:
-        raise AnchorMissing("Reader.read: no (data, sync) return found")
+    _read_clause(ctx, repo)
     # complementary threshold stores
     st = [s for s in walk_function(fi.node) if isinstance(s, ast.Assign) and isinstance(s.targets[0], ast.Subscript) and loc_name(s.targets[0].value) == "analog"]
     ops = {}
@@ -560,6 +653,23 @@ def d3_read_sync(ctx):
         first_is_lt = isinstance(find(st[0].targets[0].slice, ast.Compare)[0].ops[0], ast.Lt)
         ctx.check(first_is_lt, fi, st[0], st[0], "the low side is cleared before the high side is set", "the high side is set first: values set to 1 are then cleared when threshold > 1",
                   key="threshold-order")
+    _digital_clause(ctx, repo)
+
+
+def _read_clause(ctx, repo):
+    # read(): the sync handed back next to the data is the sync of the same samples
+    fr = repo.fn("spikeglx.Reader.read")
+    dur = DefUse(fr.node)
+    spr = [p_ for p_ in fr.params if p_ != "self"][0]
+    nr = 0
+    for r in returns_of(fr.node):
+        if isinstance(r.value, ast.Tuple) and len(r.value.elts) == 2:
+            nr += sync_value(ctx, repo, fr, dur, r.value.elts[1], r, spr, "read(sync=True)")
+    if nr == 0:
+        raise AnchorMissing("Reader.read: no (data, sync) return found")
+
+
+def _digital_clause(ctx, repo):
     fd = repo.fn("spikeglx.Reader.read_sync_digital")
     dud = DefUse(fd.node)
     spd = [p_ for p_ in fd.params if p_ != "self"][0]
@@ -569,6 +679,11 @@ def d3_read_sync(ctx):
             okd, whyd = _digital_ok(repo, fd, dud, r.value, r, spd)
     ctx.check(okd, fd, fd.node, "split_sync(self._raw[_slice, sync indices])", "digital lines decode the raw sync column(s) of the requested samples",
               f"read_sync_digital does not decode self._raw[_slice, <sync indices>]: {whyd}", key="digital")
+
+
+def _read_and_digital_clauses(ctx, repo):
+    _read_clause(ctx, repo)
+    _digital_clause(ctx, repo)
 
 
 def dS_shared(ctx):
